@@ -19,7 +19,7 @@ pub struct Workload {
     pub stats: bool,
 }
 
-const MODES: [&str; 7] = ["standard", "count", "files-with-matches", "quiet", "files", "json", "context"];
+const MODES: [&str; 12] = ["standard", "count", "files-with-matches", "quiet", "files", "json", "context", "files-without-match", "count-matches", "include-zero", "only-matching", "vimgrep"];
 
 pub fn gen_workload(sub: u64) -> Workload {
     let mut rng = Rng::new(sub);
@@ -53,6 +53,11 @@ fn base_args(w: &Workload) -> Vec<String> {
         "files" => a.push("--files".into()),
         "json" => a.push("--json".into()),
         "context" => a.extend(["-n".into(), "--no-heading".into(), "-C1".into()]),
+        "files-without-match" => a.push("--files-without-match".into()),
+        "count-matches" => a.push("--count-matches".into()),
+        "include-zero" => a.extend(["-c".into(), "--include-zero".into()]),
+        "only-matching" => a.extend(["-o".into(), "-n".into(), "--no-heading".into()]),
+        "vimgrep" => a.push("--vimgrep".into()),
         _ => {}
     }
     if w.stats {
@@ -93,6 +98,9 @@ fn expected_status(w: &Workload, faulted_open: &BTreeSet<String>, faulted_dirs: 
     }
     // -q: the run goes on past errors until a match is found, and a match wins
     // ("or when --quiet found a match"); if nothing matches every fault is met.
+    if w.mode == "files-without-match" && !errored {
+        return None;
+    }
     Some(if matched && (quiet || !errored) {
         0
     } else if errored {
@@ -127,7 +135,7 @@ pub fn run_workload(sub: u64, only_leg: Option<&str>, acc: &mut Acc, ctx: &Ctx, 
     if w.no_messages {
         acc.mix.inc("--no-messages");
     }
-    let line_mode = matches!(w.mode.as_str(), "standard" | "count" | "files-with-matches" | "files");
+    let line_mode = matches!(w.mode.as_str(), "standard" | "count" | "files-with-matches" | "files" | "files-without-match" | "count-matches" | "include-zero" | "only-matching" | "vimgrep");
 
     // ---- fault-free reference ------------------------------------------------
     let ref_spec = mk(vec!["read_frag=0".into()], &[]); // plan present => shim loaded, counters available
@@ -145,6 +153,9 @@ pub fn run_workload(sub: u64, only_leg: Option<&str>, acc: &mut Acc, ctx: &Ctx, 
     }
     let any_match = w.corpus.files.iter().any(|(_, c)| file_matches(c));
     let exp0 = if w.mode == "files" { 0 } else if any_match { 0 } else { 1 };
+    // (--files-without-match: what counts as "a match" for the status is not
+    // part of the model; the fault-free status is taken as the reference)
+    let exp0 = if w.mode == "files-without-match" { reference.code } else { exp0 };
     if want("fault-free") {
         if reference.timed_out || reference.code != exp0 || !reference.stderr.is_empty() {
             acc.violation("C15", "fault-free-status", format!("no fault injected: exit {} (expected {exp0}), stderr {:?}", reference.code, show(&reference.stderr)), sub, replay_body(sub, &w, "fault-free", &ref_spec, None, &reference, json!(null)));
@@ -400,10 +411,11 @@ pub fn run_workload(sub: u64, only_leg: Option<&str>, acc: &mut Acc, ctx: &Ctx, 
             if !got.stderr.is_empty() {
                 acc.violation("C15", "epipe-diagnostic", format!("stdout closed after {k} bytes: stderr not empty: {:?}", show(&got.stderr)), sub, replay_body(sub, &w, "epipe", &spec, Some(&reference), &got, detail.clone()));
             }
-            // Status 0 when results were being delivered; when the uninterrupted
-            // run finds nothing (its only output is e.g. the JSON summary) the
-            // status stays 1 - "nothing matched" - whether or not the pipe closed.
-            if got.code != reference.code {
+            // Status 0 (graceful end); when the uninterrupted run finds nothing and
+            // the failed write was not a per-file result (e.g. only the JSON summary
+            // is printed) the status may stay 1 - "nothing matched". What must not
+            // happen is a run that would have succeeded ending in a failure status.
+            if got.code != 0 && got.code != reference.code {
                 let class = if w.threads == 1 && w.mode != "files" { "epipe-status:single-threaded-search" } else if w.threads == 1 { "epipe-status:single-threaded-files" } else { "epipe-status:multi-threaded" };
                 acc.violation("C15", class, format!("stdout closed after {k} bytes: exit {} (the uninterrupted run exits {}; a closed pipe must not turn that into a failure)", got.code, reference.code), sub, replay_body(sub, &w, "epipe", &spec, Some(&reference), &got, detail.clone()));
             }
